@@ -331,12 +331,15 @@ def token_guard_verdict(idx, func, use, tgt, tmap):
     if not tcls:
         return None, 'target class not resolved'
     for k in toks:
-        carriers = set(tmap.get(k, ())) | set(tmap.get('*', ()))
         if not tmap.get(k):
             return None, 'no construction site passes Token::%s' % k
-        wrong = sorted(c for c in carriers if not idx.derives_from(c, tcls))
+        wrong = sorted(c for c in tmap.get(k, ()) if not idx.derives_from(c, tcls))
         if wrong:
             return False, 'Token::%s is also carried by %s, which is not a %s: the cast yields null there' % (k, ', '.join(wrong), tcls)
+        unknown = sorted(c for c in tmap.get('*', ()) if not idx.derives_from(c, tcls))
+        if unknown:
+            # a class built with a token this analysis cannot bound (passed through a helper): nothing is known about it -- no verdict
+            return None, '%s is constructed with a token that is not bounded at its construction site' % ', '.join(unknown)
     return True, 'under a test for %s; every construction site that passes such a token builds a %s' % ('/'.join(toks), tcls)
 
 
@@ -453,19 +456,39 @@ def format_sites(idx, prefixes):
             lit = cast.string_lit(n)
             if lit is None or any(x is not n and x.get('kind') in ('CXXConstructExpr', 'CXXTemporaryObjectExpr') and 'basic_format' in (dqt(x) + qt(x)) for x in walk(n)):
                 continue
-            # climb through the operator% applications
-            cnt = 0
-            x = n
-            while id(x) in parents:
-                p_ = parents[id(x)]
-                if p_.get('kind') in ('ImplicitCastExpr', 'MaterializeTemporaryExpr', 'CXXBindTemporaryExpr', 'ParenExpr', 'ExprWithCleanups', 'CXXFunctionalCastExpr'):
-                    x = p_
-                    continue
-                if p_.get('kind') == 'CXXOperatorCallExpr' and callee_of(p_)[1] == 'operator%' and call_args(p_) and any(z is x for z in walk(call_args(p_)[0])):
-                    cnt += 1
-                    x = p_
-                    continue
-                break
+            # climb through the operator% applications (a dependent % inside a template is a plain BinaryOperator)
+            def climb(x):
+                cnt = 0
+                while id(x) in parents:
+                    p_ = parents[id(x)]
+                    if p_.get('kind') in ('ImplicitCastExpr', 'MaterializeTemporaryExpr', 'CXXBindTemporaryExpr', 'ParenExpr', 'ExprWithCleanups', 'CXXFunctionalCastExpr'):
+                        x = p_
+                        continue
+                    if p_.get('kind') == 'CXXOperatorCallExpr' and callee_of(p_)[1] == 'operator%' and call_args(p_) and any(z is x for z in walk(call_args(p_)[0])):
+                        cnt += 1
+                        x = p_
+                        continue
+                    if p_.get('kind') == 'BinaryOperator' and p_.get('opcode') == '%' and children(p_) and any(z is x for z in walk(children(p_)[0])):
+                        cnt += 1
+                        x = p_
+                        continue
+                    break
+                return cnt, x
+            cnt, top = climb(n)
+            par = parents.get(id(top))
+            while par is not None and par.get('kind') in ('ImplicitCastExpr', 'ExprWithCleanups', 'MaterializeTemporaryExpr', 'CXXBindTemporaryExpr'):
+                par = parents.get(id(par))
+            if cnt == 0 and par is not None and par.get('kind') == 'VarDecl':
+                # a named format object fed later: every `fmt % a % b ...` chain that starts at the variable is a site of its own
+                vid = par.get('id')
+                uses = [x for x in walk(f.body) if x.get('kind') == 'DeclRefExpr' and (x.get('referencedDecl') or {}).get('id') == vid]
+                chains = [climb(u)[0] for u in uses]
+                chains = [c_ for c_ in chains if c_ > 0]
+                if not chains:
+                    continue          # never fed in this function (passed on): not judged here
+                for c_ in chains:
+                    out.append((f, pos(n), lit, c_))
+                continue
             out.append((f, pos(n), lit, cnt))
     return out
 
